@@ -56,3 +56,16 @@ CHECKS["C12"] = dict(
     text="Proved for arbitrary finite expression trees and any operator class: collect(term) appends exactly Flat(op, term) - the in-order maximal non-op sub-terms of a chain of the same operator - keeps earlier terms and changes nothing else. NOT proved: norm's sort-by-dump/rebuild and recursive in-place rewriting, nor the composition 'equal signature => equal value'; these are checked by exhaustive enumeration of small expressions (grouping by signature, exact integer evaluation), AC rearrangements and single-point mutations. The Lean lemmas planned in DESIGN.md were not written.",
     note="Bounded part is exploration. Expression trees assumed acyclic (parser output).",
     ref="DESIGN.md section 7 (C12)")
+FIX_COMMITS += ["9a3a131", "64e33d5"]
+CHECKS["C06"] = dict(
+    level="proof",
+    technique="contract-based deductive verification of the real execute() lifecycle: ghost trace, loop invariant over an arbitrary number of nodes, abstract node/driver/helper contracts, exceptional postconditions per failure origin; schema validity by a bounded jsonschema tier",
+    text="The 300-line SemantivaOrchestrator.execute is executed symbolically for any number of nodes with node.process abstract (returns or raises an exception of any class, incl. KeyboardInterrupt-class). Proved: invariant T = T0 ++ start ++ succeeded SERs (node ids = canonical uuids, run/pipeline ids shared, upstream = canonical edges); on return T ends with pipeline_end(ok) after exactly n SERs; a failing node leaves one error SER then pipeline_end(error) and no later node runs; a construction failure leaves start ++ end(error); the driver is flushed and closed on every exit; earlier trace content is never touched. Schema validity of emitted JSON and the concrete driver are checked only by a bounded tier (real pipelines x failure point x 7 failure kinds x detail levels x file/dir output, every line validated with jsonschema).",
+    note="Assumed: driver methods do not raise; orchestrator helpers return fresh values without raising (their no-raise/no-mutation contracts are proved in C10/C07); _submit_and_wait calls the callable once; the original exception object is the one propagated by re-raise. Bounded part is exploration.",
+    ref="DESIGN.md section 7 (C06)")
+CHECKS["C10"] = dict(
+    level="proof",
+    technique="contract-based deductive verification: execute() proved against the same contract with and without a driver; no-raise / no-mutation contracts on the trace-only helpers with abstract user hooks; reproducibility by a bounded native tier",
+    text="Proved: with trace=None the real execute() runs the same nodes, returns/raises at the same points and never touches the ghost trace; _data_summary, _context_summary, _init_summaries, _augment_output_summaries (for every value of every keyword flag), _trace_options and _ensure_context_delta never raise (user hooks serialize/sha256/repr/canonical JSON/len may raise any Exception) and modify nothing but the summaries dict they are given. NOT proved: equality of non-volatile record fields across runs (depends on the concrete driver and hashing): bounded tier compares traced vs untraced outcomes and repeated traces modulo volatile fields over 9 configurations x 4 detail levels.",
+    note="Bounded part is exploration. User hooks assumed not to mutate their argument.",
+    ref="DESIGN.md section 7 (C10)")
